@@ -8,6 +8,7 @@ import (
 	"verif/checks/c13"
 	"verif/checks/c14"
 	"verif/checks/c22"
+	"verif/checks/c35"
 	"verif/checks/c38"
 )
 
@@ -16,6 +17,8 @@ var checks = map[string]func(){
 	"C13": c13.Main,
 	"C14": c14.Main,
 	"C22": c22.Main,
+	"C35": c35.Main,
+	"C35S": c35.SchedOnlyMain,
 	"C38": c38.Main,
 }
 
